@@ -402,7 +402,8 @@ def main():
             inconclusive.append("evidence file failed schema validation: " + msg)
 
     print(f"[{pid}/{args.tier}] seed={args.seed} evaluations={agg['evaluations']} distinct_nontrivial={distinct} "
-          f"unlisted_violations={n_unlisted} known={sum(cov['known_findings_seen'].values())} timeouts={ntime} wall={wall:.1f}s")
+          f"unlisted_violations={n_unlisted} known={sum(cov['known_findings_seen'].values())} timeouts={ntime}"
+          + (f" generator_errors={agg.get('gen_errors', 0)}" if agg.get("gen_errors") else "") + f" wall={wall:.1f}s")
     keys = sorted(agg["counters"])
     print("  monitors: " + ", ".join(f"{k}={agg['counters'][k]}" for k in keys)[:1500])
     if not dead:
